@@ -30,7 +30,7 @@ MC_RUNS = [("prebuilt", None), ("native_ids", None), ("reach", "NeverJoined"),
 # (kind, schedule).  xerces-parse = XalanTransformer::parseSource(..., useXercesDOM=true): outside the property's
 # "thread-safe mode" quantifier (DESIGN 7 #9); its threads run one after the other because running them concurrently
 # crashes the process (the unsynchronised string pool) - the stores are trapped all the same.
-SCRATCH_FAMILY = ["14-number-formats.xsl", "15-scratch-users.xsl"]
+SCRATCH_FAMILY = ["14-number-formats.xsl", "15-scratch-users.xsl", "16-messages.xsl"]
 KINDS = [("native", "concurrent"), ("xerces-wrapper", "concurrent"), ("xerces-parse", "serial")]
 
 # classes that only carry data for their owner: a store inside them belongs to the first function outside of them
